@@ -56,7 +56,9 @@ KIND_NAMES = {
     1204: 'C12/policy: every consistent ForceIncoming/ForceOutgoing/DisableOutgoing setting through the real acceptor, incoming handshaker, dialer and outgoing handshaker of a torrent in the stepped loop, against scripted TCP peers (plain BitTorrent, MSE offering RC4 / clear / both; legacy clear-text-only listener, MSE listeners preferring RC4 / clear text / answering an invalid selection / hanging up) vs Mse.accept_policy and Mse.dial_policy: outcome class, connections made, which of them were clear text, clear text seen on the wire',
     2001: 'C20/owners: ownership table of package torrent regenerated from the Go source by the translator (fields of torrent and Session, accesses with the locks held and the goroutine contexts of the accessing function, sends on command channels, lock nesting incl. database transactions) checked entry by entry by Owner.mon_owner',
     2002: 'C20/api_stress: 4-11 client goroutines issue 40-120 public API calls each (stats, peers, trackers, web seeds, add peer by IP and host name, add tracker, start, stop, verify, announce, list/get, add+remove torrent, StartAll/StopAll, notify channels) on a live session with a 20 ms resume write interval: every call returns and the session closes',
+    104: 'session/stop_write: a stop (files closed, os.File semantics) or a disk error while a verified piece waits at the disk, stepped loop: pieces reported vs bytes on disk vs WriteGate.v',
     903: 'C09/picker_ws: piecepicker with web seeds (PickWebseed, stop-at, close, web-seed and peer steals, PickFor in web-seed mode) under the torrent glue vs PickerWs.v (answers validated against the legal set)',
+    905: 'C09/file_edges: markFileEdges of the real picker (sequential mode) on generated layouts incl. zero-length, tiny, huge and padding files vs Edges.v',
     1901: 'C19/private_flag: metainfo.NewInfo on generated encodings of the private field (integers incl. out of int64 range, strings, lists, dictionaries, absent) vs Priv.priv_of_raw',
     1902: 'session/private: private, public and magnet torrents in the stepped event loop with a scripted HTTP tracker and scripted peers, DHT/PEX/dial switches on and off, optionally after a session restart: addresses known by source, DHT announcer and request queue, PEX senders, magnet export, metadata adoption, user agent / peer id / client version, dial of a probe listener vs Priv.v',
 }
@@ -73,7 +75,7 @@ TRUSTED_COMMON = [
 
 PROPS = {
     'C01': {
-        'kinds': {101: {'quick': 1500, 'thorough': 40000}, 102: {'quick': 800, 'thorough': 20000}, 103: {'quick': 3000, 'thorough': 60000}, 105: {'quick': 150, 'thorough': 3000}},
+        'kinds': {101: {'quick': 1500, 'thorough': 40000}, 102: {'quick': 800, 'thorough': 20000}, 103: {'quick': 3000, 'thorough': 60000}, 104: {'quick': 60, 'thorough': 1200}, 105: {'quick': 150, 'thorough': 3000}},
         'trusted': ['SHA-1: a buffer whose digest equals the recorded hash is the recorded content (collision resistance)'],
         'assumptions': [],
     },
@@ -123,13 +125,13 @@ PROPS = {
         'assumptions': [],
     },
     'C17': {
-        'kinds': {1701: {'quick': 1200, 'thorough': 20000}, 1702: {'quick': 1000, 'thorough': 20000}, 1703: {'quick': 300, 'thorough': 6000}, 1704: {'quick': 200, 'thorough': 2000}, 302: {'quick': 3000, 'thorough': 60000}, 1803: {'quick': 3000, 'thorough': 60000}},
+        'kinds': {102: {'quick': 800, 'thorough': 20000}, 1701: {'quick': 1200, 'thorough': 20000}, 1702: {'quick': 1000, 'thorough': 20000}, 1703: {'quick': 300, 'thorough': 6000}, 1704: {'quick': 200, 'thorough': 2000}, 302: {'quick': 3000, 'thorough': 60000}, 1803: {'quick': 3000, 'thorough': 60000}},
         'trusted': ['Go select semantics: one ready case is chosen; channel operations are atomic steps of the manager loop'],
         'assumptions': ['callers release only reservations they were granted (caller protocol)'],
     },
     'C09': {
-        'kinds': {901: {'quick': 1500, 'thorough': 40000}, 903: {'quick': 1500, 'thorough': 40000}, 101: {'quick': 1500, 'thorough': 40000}, 1303: {'quick': 1500, 'thorough': 40000}},
-        'trusted': ['slices.SortFunc returns a permutation sorted by the key (ties in any order)', 'markFileEdges (file head/tail flags are taken from the real picker)'],
+        'kinds': {901: {'quick': 1500, 'thorough': 40000}, 903: {'quick': 1500, 'thorough': 40000}, 905: {'quick': 1500, 'thorough': 30000}, 101: {'quick': 1500, 'thorough': 40000}, 1303: {'quick': 1500, 'thorough': 40000}},
+        'trusted': ['slices.SortFunc returns a permutation sorted by the key (ties in any order)', 'in kinds 901/903 the file head/tail flags are taken from the real picker (markFileEdges itself is kind 905)'],
         'assumptions': ['the torrent loop calls the picker under the glue discipline modelled by Picker.pstep'],
     },
     'C03': {
